@@ -3,6 +3,7 @@ C03 - range functions see exactly the window's samples and compute the reference
 -/
 import PromqlVerif.Proofs.Den
 import PromqlVerif.Proofs.BufProof
+import PromqlVerif.Proofs.SelOpProof
 namespace PromqlVerif.C03
 open PromqlVerif Val
 
@@ -33,6 +34,45 @@ theorem matrix_scan_is_reference (S : List (Sample V)) (hs : SortedT S) (range s
     selectRangesM range step range (Buf.new S) [] ((List.range n).map fun (k : Nat) => r0 + (k : Int) * step) =
       (List.range n).map fun (k : Nat) => windowPoints (r0 + (k : Int) * step - range) (r0 + (k : Int) * step) S :=
   matrix_scan_along_steps S hs range step hr hst r0 n
+
+theorem ends_shift (r step off : Int) (n : Nat) :
+    (ends r step n).map (fun t => t - off) = ends (r - off) step n := by
+  induction n generalizing r with
+  | zero => rfl
+  | succ n ih =>
+    simp only [ends, List.map_cons]
+    rw [ih]
+    congr 2
+    omega
+
+/-- the per-step vector of the matrix-selector operator, written with the series' sample lists -/
+theorem rangefn_step_eq (c : Ctx V) (fn : String) (s : VSel) (range t : Int) :
+    (engRangeFn c fn s range).step t =
+      .ok (rangeStep fn range ((matchingSeries c s).map (·.samples)) (t - s.offsetAt c.start)) := by
+  simp only [engRangeFn, rangeStep, enum]
+  rw [enumFrom_map, List.filterMap_map]
+  congr 1
+
+/-- **the matrix-selector operator as it is written**: `matrixSelector.Next` keeps one buffered
+iterator and one `previousPoints` slice per series for the whole query, shrinks the buffer after
+every step, and fills the step vectors of a batch series by series. Modelled as written
+(`SelOp.lean`): for every storage with sorted series, matcher set, range `≥ 0`, step `> 0`, offset
+/ @, start, and every split of the steps into batches, the stream of step vectors it produces is
+the per-step evaluation `engRangeFn` is defined by. -/
+theorem matrix_operator_stream (c : Ctx V) (fn : String) (s : VSel) (range step : Int) (hr : 0 ≤ range)
+    (hst : 0 < step) (hsorted : ∀ sr ∈ c.st, SortedT sr.samples) (t0 : Int) (ns : List Nat) :
+    (msStream fn range step (((matchingSeries c s).map (·.samples)).map (MState.new range))
+        (t0 - s.offsetAt c.start) ns).map Except.ok =
+      (ends t0 step ns.sum).map (engRangeFn c fn s range).step := by
+  rw [msStream_spec fn range step hr hst _ ?_, ← ends_shift]
+  · simp only [List.map_map]
+    apply List.map_congr_left
+    intro t _
+    simp only [Function.comp]
+    exact (rangefn_step_eq c fn s range t).symm
+  · intro sm hsm
+    obtain ⟨sr, hsr, rfl⟩ := List.mem_map.mp hsm
+    exact hsorted sr (List.mem_filter.mp hsr).1
 
 /-- the hypotheses are met by a series with a staleness marker and overlapping windows -/
 example : SortedT ([⟨1, .num 1⟩, ⟨5, .stale⟩, ⟨9, .num 3⟩] : List (Sample Int)) ∧
